@@ -107,6 +107,7 @@ type hop struct {
 	noCClose bool // publisher hop: the reading end is the server, it keeps draining after the client closed
 	skipComplete map[int]bool // readers whose queue-full reports could not be attributed to single writes
 	srtpDeaf bool // a reader's SRTP context was left behind by a sequence wrap (known finding): no trace replay
+	ended    map[int]string // readers whose session the SERVER ended with an error before the run was over (signalled)
 }
 
 type fmtInfo struct {
@@ -151,6 +152,7 @@ type handler struct {
 	curFull  *[]int // filled by OnStreamWriteError during a write (same goroutine as the writer)
 	otherErr atomic.Int64
 	unattr   map[int]int // queue-full reports that cannot be attributed to one write (concurrent writers)
+	ended    map[int]string // reader index -> error with which the server closed its session (OnSessionClose)
 	onPause  func(k int)
 	// relay
 	relay     bool
@@ -190,6 +192,27 @@ func (h *handler) OnSetup(ctx *gortsplib.ServerHandlerOnSetupCtx) (*base.Respons
 	st := h.stream
 	h.mu.Unlock()
 	return &base.Response{StatusCode: base.StatusOK}, st, nil
+}
+
+// OnSessionClose: a session the server ends on its own (write timeout towards a reader that cannot keep up,
+// read timeout) is a SIGNALLED end of the delivery to that reader, not a silent loss
+func (h *handler) OnSessionClose(ctx *gortsplib.ServerHandlerOnSessionCloseCtx) {
+	h.mu.Lock()
+	defer h.mu.Unlock()
+	if k, ok := h.sessIdx[ctx.Session]; ok {
+		if h.ended == nil {
+			h.ended = map[int]string{}
+		}
+		if ctx.Error != nil {
+			h.ended[k] = ctx.Error.Error()
+		}
+	}
+}
+
+func (h *handler) endedWith(k int) string {
+	h.mu.Lock()
+	defer h.mu.Unlock()
+	return h.ended[k]
 }
 
 func (h *handler) OnPlay(_ *gortsplib.ServerHandlerOnPlayCtx) (*base.Response, error) {
@@ -682,8 +705,26 @@ func (sc *scenario) runPlay() *runResult {
 				}
 			}
 			hp.mu.Unlock()
-			for rd.lastTag.Load() < target && time.Now().Before(deadline) {
+			// the wait is bounded by PROGRESS, not by a fixed total: on a loaded machine a reader may need long
+			// for megabytes of backlog; a reader that has not advanced for 10 s is stalled (or its packets are lost)
+			last, lastProgress := rd.lastTag.Load(), time.Now()
+			for rd.lastTag.Load() < target && (time.Now().Before(deadline) || time.Since(lastProgress) < 10*time.Second) &&
+				time.Since(deadline) < 110*time.Second {
+				if cur := rd.lastTag.Load(); cur != last {
+					last, lastProgress = cur, time.Now()
+				}
+				if e := h.endedWith(k); e != "" {
+					break // the server ended this reader's session: nothing more will come
+				}
 				time.Sleep(10 * time.Millisecond)
+			}
+			if e := h.endedWith(k); e != "" {
+				hp.mu.Lock()
+				if hp.ended == nil {
+					hp.ended = map[int]string{}
+				}
+				hp.ended[k] = e
+				hp.mu.Unlock()
 			}
 			rd.tailOK.Store(true)
 		}
@@ -1070,7 +1111,12 @@ func (hp *hop) oracle(sc *scenario) []failure {
 					missingSeen = wi
 				}
 			}
-			if missingSeen >= 0 && (win.stopB < 0 || win.drained) {
+			if e := hp.ended[r]; missingSeen >= 0 && e != "" {
+				// the tail is missing because the server terminated the session and said so
+				if !strings.Contains(e, "timeout") && !strings.Contains(e, "timed out") {
+					add("tcp-reader-session-ended", "reader %d (TCP): the server ended the session of a reader that was playing (%s); write %d onwards not delivered", r, e, missingSeen)
+				}
+			} else if missingSeen >= 0 && (win.stopB < 0 || win.drained) {
 				add("tcp-missing", "reader %d (TCP): write %d was never delivered although the reader kept playing until everything had drained and no queue-full was reported", r, missingSeen)
 			}
 			// a PAUSE discards at most what is queued: everything already handed to the connection precedes
@@ -2392,7 +2438,7 @@ func main() {
 		}()
 	}
 	wg.Wait()
-	totalD, totalW, totalFull := 0, 0, 0
+	totalD, totalW, totalFull, totalEnded := 0, 0, 0, 0
 	for _, j := range jobs {
 		ctx.Eval()
 		ctx.Kind("scenario:" + j.sc.kind + ":" + strings.Join(j.sc.transport, "+"))
@@ -2427,11 +2473,15 @@ func main() {
 			}
 			ctx.Kind(fmt.Sprintf("hop:%s", hp.name))
 			var idx = j.i
-			if j.sc.kind != "concurrent" && !hp.srtpDeaf {
+			if j.sc.kind != "concurrent" && !hp.srtpDeaf && len(hp.ended) == 0 {
 				line := hp.caseLine()
 				idx = ctx.Corr(line, "1")
 			} else if hp.srtpDeaf {
 				ctx.Kind("trace-not-replayed:srtp-stale-roc")
+			} else if len(hp.ended) != 0 {
+				// the trace model has no "server ended the session" event: the oracle above judged the run
+				ctx.Kind("trace-not-replayed:server-ended-a-reader-session")
+				totalEnded += len(hp.ended)
 			}
 			for _, f := range fails {
 				ctx.Failf(idx, f.class, j.sc.String(), "hop %s: %s", hp.name, f.detail)
@@ -2441,6 +2491,7 @@ func main() {
 	ctx.Extra("deliveries", totalD)
 	ctx.Extra("writes", totalW)
 	ctx.Extra("queue_full_reports", totalFull)
+	ctx.Extra("reader_sessions_ended_by_the_server_with_a_timeout", totalEnded)
 	ctx.Extra("http_tunnel_handshake_races_retried", tunnelHandshakeRaces.Load())
 }
 
